@@ -1400,3 +1400,59 @@ pub fn edit_singles() -> Vec<String> {
     }
     out
 }
+
+// ------------------------------------------------------------------------------------------------
+// C10, document side: the namespace corpus (tools/gen_ns_corpus.py): the expanded name of every element and attribute, as the JDK
+// DOM parser and libxml2 agree.  "local=uri" per element in document order, then its attributes (declarations left out) sorted.
+
+pub const NS_CORPUS: &str = include_str!("../data/ns_corpus.txt");
+
+pub fn info_ns_corpus(doc: &str, expected: &str) -> Outcome {
+    use xml_info::{Attribute, Document, Element, HasQName};
+    fn walk(e: &xml_info::XmlNode<xml_info::XmlElement>, out: &mut Vec<String>) {
+        let b = e.borrow();
+        let show = |r: xml_info::error::Result<Option<xml_info::NamespaceUri>>| match r {
+            Ok(Some(u)) if !u.value().is_empty() => u.value().to_string(),
+            Ok(Some(_)) => "-".to_string(),
+            Ok(None) => "-".to_string(),
+            Err(_) => "Err".to_string(),
+        };
+        out.push(format!("{}={}", b.local_name(), show(b.namespace_name())));
+        let mut attrs = vec![];
+        for a in b.attributes().iter() {
+            let a = a.borrow();
+            if a.prefix() == Some("xmlns") || (a.prefix().is_none() && a.local_name() == "xmlns") {
+                continue;
+            }
+            attrs.push(format!("@{}={}", a.local_name(), show(a.namespace_name())));
+        }
+        attrs.sort();
+        out.append(&mut attrs);
+        for c in b.children().iter() {
+            if let Some(ce) = c.as_element() {
+                walk(&ce, out);
+            }
+        }
+    }
+    let observed = match catch_unwind(AssertUnwindSafe(|| {
+        let tree = match xml_parser::document(doc) {
+            Ok((rest, t)) if rest.is_empty() => t,
+            _ => return "not accepted".to_string(),
+        };
+        let d = match xml_info::XmlDocument::new(&tree) {
+            Ok(d) => d,
+            Err(_) => return "not accepted".to_string(),
+        };
+        let root = match d.borrow().document_element() {
+            Ok(r) => r,
+            Err(_) => return "no document element".to_string(),
+        };
+        let mut out = vec![];
+        walk(&root, &mut out);
+        out.join(" ")
+    })) {
+        Ok(s) => s,
+        Err(e) => format!("PANIC({})", e.downcast_ref::<&str>().map(|s| s.to_string()).or_else(|| e.downcast_ref::<String>().cloned()).unwrap_or_default()),
+    };
+    Outcome { observed, expected: expected.to_string(), note: String::new() }
+}
